@@ -69,6 +69,9 @@ func runC19(c *Ctx) {
 	c19ValueReceivers(c)
 	c19Pools(c)
 	c19Goroutines(c)
+	// pooled memory must not stay reachable from results: a recycled buffer is shared state
+	c17UnsafeViews(c)
+	c17Selection(c)
 }
 
 func c19Globals(c *Ctx) {
